@@ -227,6 +227,11 @@ func (b *bmpClient) loop() {
 							var pathList []*table.Path
 							if msg.Init {
 								pathList = msg.PathList
+								// the station has these routes now: a later
+								// withdrawal must not be taken for a duplicate
+								for _, p := range pathList {
+									b.ribout.update(p)
+								}
 							} else {
 								for _, p := range msg.PathList {
 									if b.ribout.update(p) {
